@@ -71,6 +71,61 @@ def real_feed(chunks, channels):
     return conn, log, residuals, marks
 
 
+def run_reopen_case(rep, rng, frsA, rawsA, frsB, rawsB):
+    """the documented reconnect pattern: a stream is cut off inside a frame, the same Connection object is opened again
+    (the real IO.open, with the socket factory and the reader thread stubbed) and the new stream - cut anywhere - must
+    be understood from its first byte"""
+    import os
+    dataA = b''.join(rawsA)
+    t = rng.randint(1, len(rawsA[-1]) - 1)
+    sentA = dataA[:-t]
+    ptsA = sorted(rng.sample(range(1, len(sentA)), min(2, len(sentA) - 1))) if len(sentA) > 1 else []
+    chunksA = cut(sentA, ptsA)
+    dataB = b''.join(rawsB)
+    ptsB = sorted(rng.sample(range(1, len(dataB)), min(rng.randint(0, 4), len(dataB) - 1))) if len(dataB) > 1 else []
+    chunksB = cut(dataB, ptsB)
+    channels = sorted({ch for ch, _ in frsA + frsB if ch})
+    conn, log, residuals, marks = real_feed(chunksA, channels)
+    io = conn._io
+    nA = len(log)
+    readsA = len(residuals)
+    resA = residuals[-1] if residuals else b''
+    rfd, wfd = os.pipe()
+    try:
+        sock = ScriptedSocket(io, chunksB)
+        sock.fileno = lambda: rfd
+        io._get_socket_addresses = lambda: []
+        io._find_address_and_connect = lambda addresses: sock
+        io._create_inbound_thread = lambda: None
+        io.open()
+        io.poller = ReadyPoller()
+        io._running.set()
+        io._process_incoming_data()
+    finally:
+        os.close(rfd)
+        os.close(wfd)
+    got = [frame_key(c, f) for c, f in log[nA:]]
+    want = [raw for (_, _, _, raw) in wire.split_frames(dataB)[0]]
+    replay = {'kind': 'reopen', 'frames_hex': [r.hex() for r in rawsA], 'chunks_hex': [c.hex() for c in chunksA], 'truncated': t,
+              'frames2_hex': [r.hex() for r in rawsB], 'chunks2_hex': [c.hex() for c in chunksB]}
+    if got != want or conn.exceptions:
+        rep.violation('C02/stale-bytes-reinterpreted-after-reopen', 'the first stream ended inside a frame (%d bytes carried over); after '
+                      'IO.open() the new stream of %d frames was dispatched as %d frames, errors %r' % (
+                          len(resA), len(want), len(got), [repr(e)[:60] for e in conn.exceptions][:1]), replay)
+    rep.case((b''.join(chunksA), tuple(len(c) for c in chunksA), 'reopen', dataB, tuple(len(c) for c in chunksB)), True,
+             sample={'kind': 'reopen', 'carried': len(resA), 'frames_after': len(want)})
+    rep.count('chunking', 'reopen')
+    lines = ['c02.reset'] + ['c02.feed %s' % wire.hexs(c) for c in chunksA] + ['c02.reopen']
+    expect = ['ok'] + [None] * len(chunksA) + ['ok']
+    prev = nA
+    for chunk, res, mark in zip(chunksB, residuals[readsA:], marks[readsA:]):
+        out = [show_dispatched(c, f) for c, f in log[prev:mark]]
+        prev = mark
+        lines.append('c02.feed %s' % wire.hexs(chunk))
+        expect.append('out=%s buf=%s' % (','.join(out) if out else '-', wire.hexs(res)))
+    return lines, expect
+
+
 def frame_key(cid, fr):
     """canonical form of a dispatched pamqp frame: its own re-marshalled bytes"""
     return pframe.marshal(fr, cid)
@@ -236,6 +291,13 @@ def check(rep):
             sent = data[:-t]
             pts = sorted(rng.sample(range(1, len(sent)), min(3, len(sent) - 1))) if len(sent) > 1 else []
             add(frs, raws, cut(sent, pts), 'truncated', truncated=t)
+    for i in range(40 if not thorough else 300):
+        frsA, rawsA = gen_stream(rng, rng.randint(1, 4), max_body=24)
+        frsB, rawsB = gen_stream(rng, rng.randint(1, 5), max_body=24)
+        ls, ex = run_reopen_case(rep, rng, frsA, rawsA, frsB, rawsB)
+        lines.extend(ls)
+        expect.extend(ex)
+        meta.extend([('reopen', [r.hex() for r in rawsA + rawsB], [])] * len(ls))
     if thorough:
         rep.exhaustive = True
         for i in range(12):
@@ -274,7 +336,7 @@ def check(rep):
         got = common.run_driver(lines)
         rep.corr_cases = sum(1 for l in lines if not l.endswith('reset'))
         for l, g, e, m in zip(lines, got, expect, meta):
-            if g != e:
+            if e is not None and g != e:
                 rep.mismatch({'line': l[:200], 'kind': m[0], 'frames_hex': m[1], 'chunks_hex': m[2]}, g[:300], e[:300])
     else:
         rep.infra_errors.append('lean driver not buildable')
@@ -286,6 +348,29 @@ def replay(data):
     raws = [bytes.fromhex(h) for h in r['frames_hex']]
     chunks = [bytes.fromhex(h) for h in r['chunks_hex']]
     frs = [wire.decode(x) for x in raws]
+    if r.get('kind') == 'reopen':
+        import os
+        raws2 = [bytes.fromhex(h) for h in r['frames2_hex']]
+        chunks2 = [bytes.fromhex(h) for h in r['chunks2_hex']]
+        frs2 = [wire.decode(x) for x in raws2]
+        conn, log, residuals, _ = real_feed(chunks, sorted({c for c, _ in frs + frs2 if c}))
+        io = conn._io
+        n = len(log)
+        rfd, wfd = os.pipe()
+        sock = ScriptedSocket(io, chunks2)
+        sock.fileno = lambda: rfd
+        io._get_socket_addresses = lambda: []
+        io._find_address_and_connect = lambda addresses: sock
+        io._create_inbound_thread = lambda: None
+        io.open()
+        io.poller = ReadyPoller()
+        io._running.set()
+        io._process_incoming_data()
+        ok = [frame_key(c, f) for c, f in log[n:]] == raws2 and not conn.exceptions
+        print('first stream left %d bytes over; after IO.open() %d frames sent, %d dispatched, errors %r' % (
+            len(residuals[-1]) if residuals else 0, len(raws2), len(log) - n, conn.exceptions))
+        print('property holds on this input' if ok else 'VIOLATION reproduced')
+        return 0 if ok else 1
     conn, log, residuals, _ = real_feed(chunks, sorted({c for c, _ in frs if c}))
     print('sent %d frames in %d chunks; dispatched %d; residual %r' % (len(raws), len(chunks), len(log), residuals[-1] if residuals else b''))
     ok = [frame_key(c, f) for c, f in log] == raws[:len(raws)] and (not residuals or residuals[-1] == b'')
